@@ -750,4 +750,17 @@ def rule_flush(ctx):
                construct="flush:return without join")
 
 
-RULES = [rule_one_end, rule_wrappers, rule_seq, rule_arg, rule_rest, rule_codes, rule_cwd, rule_rename, rule_refuse, rule_guard_seq, rule_line, rule_borrowed_r4, rule_preconditions, rule_defined, rule_flush, rule_initial_offset]
+def rule_borrowed_r6(ctx):
+    from .c03 import rule_drop
+    from .c13 import rule_univ
+    from .c16 import rule_support
+    ctx.borrow(rule_drop, {"C03.DROP": "C05.SLOTS"})
+    ctx.rule("C05.ANSWER", "every command gets its reply on every backend: a backend failure (a path timeout included) reaches the dispatcher as PathIOError and becomes 451 - the "
+                           "error converter is the outermost decorator of every backend coroutine (shared with C13.UNIV)")
+    ctx.borrow(rule_univ, {"C13.UNIV": "C05.ANSWER"})
+    ctx.rule("C05.FUTURES", "a command waiting for a session value is woken when the value arrives: Connection's assignment resolves the pending future the waiter holds "
+                            "(shared with C16.SUPPORT)")
+    ctx.borrow(rule_support, {"C16.SUPPORT": "C05.FUTURES"}, only=lambda fn: "Connection" in fn)
+
+
+RULES = [rule_borrowed_r6, rule_one_end, rule_wrappers, rule_seq, rule_arg, rule_rest, rule_codes, rule_cwd, rule_rename, rule_refuse, rule_guard_seq, rule_line, rule_borrowed_r4, rule_preconditions, rule_defined, rule_flush, rule_initial_offset]
